@@ -42,10 +42,37 @@ func init() {
 
 // paddingLiteral reports whether v is a structlayout.Field literal whose IsPadding is the constant true.
 func paddingLiteral(v ssa.Value) bool {
+	return paddingLiteralDepth(v, 0)
+}
+
+func paddingLiteralDepth(v ssa.Value, depth int) bool {
 	ok := false
 	for x := range BackSlice(v, SliceOpts{}) {
+		// built by a helper of the package: every return of the helper is a padding element
+		if call, isCall := x.(*ssa.Call); isCall && depth < 2 {
+			if callee := call.Call.StaticCallee(); callee != nil && FuncInModule(callee) && callee.Blocks != nil && strings.HasSuffix(call.Type().String(), "structlayout.Field") {
+				all := len(Returns(callee)) > 0
+				for _, r := range Returns(callee) {
+					if len(r.Results) != 1 || !paddingLiteralDepth(r.Results[0], depth+1) {
+						all = false
+					}
+				}
+				if all {
+					ok = true
+				}
+			}
+		}
 		al, isAl := x.(*ssa.Alloc)
-		if !isAl || al.Comment != "complit" || !strings.HasSuffix(al.Type().String(), "structlayout.Field") {
+		if !isAl || !strings.HasSuffix(al.Type().String(), "structlayout.Field") {
+			continue
+		}
+		whole := false
+		for _, r := range *al.Referrers() {
+			if st, isSt := r.(*ssa.Store); isSt && st.Addr == ssa.Value(al) {
+				whole = true // a copy of some other element, not an element built here
+			}
+		}
+		if whole {
 			continue
 		}
 		for _, r := range *al.Referrers() {
@@ -158,6 +185,9 @@ func runC19(c *Ctx) {
 				ia, ok := x.(*ssa.IndexAddr)
 				return ok && ia.X == ssa.Value(pad.Params[0])
 			})
+		}, func(u *ssa.UnOp) bool {
+			ia := u.X.(*ssa.IndexAddr)
+			return DerivesLocal(ia.X, func(v ssa.Value) bool { return v == ssa.Value(pad.Params[0]) })
 		}, nil, "pad")
 	})
 
@@ -201,6 +231,8 @@ func runC19(c *Ctx) {
 				call, ok := x.(*ssa.Call)
 				return ok && strings.HasSuffix(CalleeName(&call.Call), "types.Var.Name") || ok && strings.HasSuffix(CalleeName(&call.Call), "types.object.Name")
 			})
+		}, func(u *ssa.UnOp) bool {
+			return strings.HasSuffix(u.Type().String(), "go/types.Var")
 		}, func(in ssa.Instruction) bool {
 			ci, ok := in.(ssa.CallInstruction)
 			return ok && ci.Common().StaticCallee() == sz
@@ -212,7 +244,7 @@ func runC19(c *Ctx) {
 // over the input has, on every path through its body, either an append of the
 // element (isElem on the appended value) or a call accepted by alt; every
 // other append of a Field literal must be flagged IsPadding.
-func checkEmit(c *Ctx, fn *ssa.Function, isElem func(ssa.Value) bool, alt func(ssa.Instruction) bool, name string) {
+func checkEmit(c *Ctx, fn *ssa.Function, isElem func(ssa.Value) bool, isElemLoad func(*ssa.UnOp) bool, alt func(ssa.Instruction) bool, name string) {
 	var elemAppends, others []*ssa.Call
 	Instrs(fn, false, func(in ssa.Instruction) {
 		call, ok := in.(*ssa.Call)
@@ -234,7 +266,9 @@ func checkEmit(c *Ctx, fn *ssa.Function, isElem func(ssa.Value) bool, alt func(s
 	for i, o := range others {
 		c.Check(FuncKey(fn)+"::extra-element-is-padding#"+itoa(i), o.Pos(), paddingLiteral(o.Call.Args[1]), "every element %s adds beyond the input fields must be marked IsPadding, otherwise the output is not a permutation of the input fields plus padding", name)
 	}
-	// the loop: from the load of the loop element, every path to the next iteration / exit passes an element append (or alt)
+	// one iteration = from loading an input element to loading the next one (or returning); every such path
+	// passes an element append (or alt). The element loads are found by what they load, so the loop may be
+	// a range loop or a three-clause loop.
 	emit := func(in ssa.Instruction) bool {
 		for _, a := range elemAppends {
 			if in == ssa.Instruction(a) {
@@ -243,39 +277,43 @@ func checkEmit(c *Ctx, fn *ssa.Function, isElem func(ssa.Value) bool, alt func(s
 		}
 		return alt != nil && alt(in)
 	}
-	// loop header: the block containing the range index increment that dominates the appends
-	var hdr *ssa.BasicBlock
-	for _, b := range fn.Blocks {
-		if strings.HasPrefix(b.Comment, "rangeindex.loop") || strings.HasPrefix(b.Comment, "rangeint.loop") {
-			if b.Dominates(elemAppends[0].Block()) {
-				if hdr == nil || hdr.Dominates(b) {
-					hdr = b
-				}
+	var loads []ssa.Instruction
+	Instrs(fn, false, func(in ssa.Instruction) {
+		u, ok := in.(*ssa.UnOp)
+		if !ok || u.Op != token.MUL {
+			return
+		}
+		if _, isIdx := u.X.(*ssa.IndexAddr); !isIdx {
+			return
+		}
+		// an input element: it feeds one of the element appends (or the alternative), and is loaded in a loop
+		feeds := false
+		for _, a := range elemAppends {
+			if Derives(a.Call.Args[1], func(v ssa.Value) bool { return v == ssa.Value(u) }) {
+				feeds = true
 			}
 		}
-	}
-	if hdr == nil {
+		if feeds && ReachesFrom(fn, u, u) && isElemLoad(u) {
+			loads = append(loads, u)
+		}
+	})
+	if len(loads) == 0 {
 		c.Undecided("%s: the loop over the input fields was not found", name)
 	}
-	// body entry = the successor of the header that dominates the append
-	var body *ssa.BasicBlock
-	for _, s := range hdr.Succs {
-		if s.Dominates(elemAppends[0].Block()) {
-			body = s
+	var t ssa.Instruction
+	var path []int
+	first := loads[0]
+	for _, ld := range loads {
+		ld := ld
+		tt, pp := PathAvoiding(fn, ld, func(in ssa.Instruction) bool {
+			if _, ok := in.(*ssa.Return); ok {
+				return true
+			}
+			return in == ld
+		}, emit, nil)
+		if tt != nil {
+			t, path, first = tt, pp, ld
 		}
-	}
-	if body == nil {
-		c.Undecided("%s: loop body not found", name)
-	}
-	first := body.Instrs[0]
-	t, path := PathAvoiding(fn, first, func(in ssa.Instruction) bool {
-		if _, ok := in.(*ssa.Return); ok {
-			return true
-		}
-		return in.Block() == hdr
-	}, emit, nil)
-	if emit(first) {
-		t = nil
 	}
 	c.Check(FuncKey(fn)+"::every-field-emitted", first.Pos(), t == nil, "every iteration over the input fields must emit that field (unconditionally): a field that is skipped on some path is missing from the output; path: %s", PathString(fn, path))
 }
